@@ -2,13 +2,13 @@
 ID = 'C06'
 LEVEL = 'exploration'
 LEVEL_TEXT = ('bounded: every one of the 25 documented preferences alone (each non-default value), the minified preset, a pairwise covering array over the full value domains and seeded random '
-              'full assignments (thorough: also all pairs of non-default values) x the DOMs of the abstract-sheet generator in 3 spellings + 44 hand-written sheets (@variables, unknown '
+              'full assignments (thorough: also all pairs of non-default values) x the DOMs of the abstract-sheet generator in 3 spellings + 46 hand-written sheets (@variables, unknown '
               'at-rules with bare - # @, calc(), !important, :not(), namespaces, duplicates, invalid and empty declarations): serialising raises nothing, the output is well-formed by an '
               'independent token-level reading, its reparse projects to the DOM with exactly the documented effects applied, the spelling preferences show as documented, layout preferences '
               'leave the S-free token sequence unchanged, lineNumbers only prefixes lines, useDefaults() restores the default bytes; frame: documented names == attributes, useMinified within it')
 LEVEL_NOTE = ('the expected effect of every preference is a function on the public-accessor projection written from the Preferences docstring (bounded/c06.py, quoted there); Property.valid and '
               'CSSImportRule.hreftype are taken from the DOM as the definition of "valid"/"hreftype"; DOMs whose default round trip is not clean belong to C02/C03 and are left out; '
-              'blind to preference values outside the tried ones (3 indents, 2-3 spacer strings) and to sheets beyond the generator bound; seven recorded deviations (known/C06.json)')
+              'blind to preference values outside the tried ones (3 indents, 2-3 spacer strings) and to sheets beyond the generator bound; eight recorded deviations (known/C06.json)')
 TECHNIQUE = 'bounded run-time contracts on the real serializer over preference assignments x generated DOMs (reference effects on the abstract projection, independent token-level reader)'
 DESIGN_REF = 'DESIGN.md section 3, C06 (T2 clause); Appendix C "Abstract sheets"'
 
